@@ -26,6 +26,8 @@ import (
 
 func init() { log.SetOutput(io.Discard) }
 
+var simZone = time.FixedZone("+1245", (12*60+45)*60)
+
 type aCfg struct {
 	W, H, Fps, Edge           int
 	Preview, MinS, MaxS, Trig int
@@ -123,7 +125,7 @@ func genRecScenario(r *verifsim.Run, focus string) *aScenario {
 	}
 	period := time.Second / time.Duration(c.Fps)
 	// wall clock start: near a window boundary when there is a window
-	day := time.Date(2021, 3, 14, 0, 0, 0, 0, time.UTC)
+	day := time.Date(2021, 3, 14, 0, 0, 0, 0, simZone) // local time of the device: not UTC, not on a whole hour
 	if c.NoWindow {
 		sc.Start = day.Add(time.Duration(r.Draw(86400)) * time.Second)
 	} else {
@@ -329,7 +331,7 @@ func (w *aWorld) advanceClock(e *aEvent) {
 	if e.Dt == -1 {
 		// absolute jump: to JumpK frame periods before boundary JumpMin on the current day
 		t := w.clock.T
-		day := time.Date(t.Year(), t.Month(), t.Day(), 0, 0, 0, 0, time.UTC)
+		day := time.Date(t.Year(), t.Month(), t.Day(), 0, 0, 0, 0, t.Location())
 		w.clock.T = day.Add(time.Duration(e.JumpMin)*time.Minute - time.Duration(e.JumpK)*time.Second/time.Duration(w.sc.Cfg.Fps))
 	} else {
 		w.clock.Advance(e.Dt)
